@@ -1,4 +1,5 @@
 import Tickit.Model.LifeOut
+import Tickit.Model.LifeTmp
 import Tickit.Gen.Life
 import Tickit.Driver.Common
 import Tickit.Driver.Sgr
@@ -20,6 +21,7 @@ import Tickit.Driver.Sgr
       closed or lies below a closed one — `tickit_window_close(3)`);
     * nothing the application still references is freed (pens, strings, buffers, the terminal);
     * a copy-out call leaves the byte behind a zero-length buffer alone;
+    * no byte the terminal is sent by `tickit_renderbuffer_flush_to_term` comes from memory nobody has written (`fresh=0`);
     * at `end`, after every reference was dropped, every object is gone and LeakSanitizer finds nothing.
 -/
 namespace Tickit.Driver.LifeEngine
@@ -185,6 +187,26 @@ def parseXOp (ts : List String) : Option XOp :=
   | ["tsetin"] => some .tsetin
   | _ => (parseOp ts).map .base
 
+def parseIAct (s : String) : Option IAct :=
+  match s.toList with
+  | ['x'] => some .cancelSelf
+  | 'i' :: r => ((String.ofList r).toNat?).map (fun v => .reg (v ≠ 0))
+  | 'k' :: r => ((String.ofList r).toNat?).map .cancel
+  | _ => none
+
+/-- `linemask_to_char[]`: every entry is a box-drawing character of U+2500..U+257F (three bytes each); which one it is
+    belongs to C03/C04.  The scratch block does not depend on it. -/
+def lineGlyph (_mask : Int) : Nat := 0x2500
+
+/-- `fresh=<n>`: how many of the bytes `tickit_renderbuffer_flush_to_term` sends for its runs of LINE cells have the value
+    the allocator leaves in memory nobody has written (the harness counts them in what the output function is handed).
+    The model of the scratch block (`Model/LifeTmp.lean`) says which bytes are sent; reading one that was never written
+    is a failure there. -/
+def freshText (b : RBObj) : String :=
+  match flushLineRuns lineGlyph b {} with
+  | .ok (_, bs) => s!" fresh={(bs.filter (· = 0xFE)).length}"
+  | _ => " fresh=uninitialised"
+
 /-- The operations of the output layer (`Model/LifeOut.lean`); a pen is written as in engine `sgr`
     (`fg=200#0a0b0c,bg=-1,b=1,u=2,…` or `-`). -/
 def parseYOp (ts : List String) : Option YOp :=
@@ -198,6 +220,8 @@ def parseYOp (ts : List String) : Option YOp :=
     some (.tcaps ((← int? r) ≠ 0) ((← int? c) ≠ 0) via)
   | ["tsetpen", p] => do some (.tsetpen true (← SgrEngine.parsePen p))
   | ["tchpen", p] => do some (.tsetpen false (← SgrEngine.parsePen p))
+  | "iio" :: r :: acts => do some (.iio ((← int? r) ≠ 0) (← acts.mapM parseIAct))
+  | ["iiocancel", k] => do some (.iiocancel (← nat? k))
   | _ => (parseXOp ts).map .x
 
 /-- The liveness columns of an implementation observation: (windows alive?, pens, strings, buffers, term). -/
@@ -246,6 +270,9 @@ def specCheck (d : DSt) (stAfter : St) (instRefs : Nat) (xRefs : List Nat) (op :
         | _ => false)
       if wild then "a mouse handler was handed a position read from uninitialised memory"
       else if (impl.splitOn "canary-overwritten").length > 1 then "copy-out call wrote behind a zero-length buffer"
+      else if (match impl.splitOn " fresh=" with
+          | _ :: rest :: _ => !(rest.startsWith "0 ")
+          | _ => false) then "bytes of memory nobody has written were sent to the terminal as text"
       else match op with
         | .«end» =>
           if (impl.splitOn "leak=1").length > 1 then "allocations remain after the last reference was dropped (LeakSanitizer)"
@@ -320,7 +347,10 @@ def step (d : DSt) (ts : List String) (impl : String) : DSt × String × String 
         -- tickit_term_setpen / chpen: the pen the terminal has cached afterwards
         let res := match yop with
           | .tsetpen .. => if res.startsWith "ok" then res ++ " pen=" ++ SgrEngine.showPen o1.o.cache else res
+          | .x (.base (.bflush k)) => if res = "ok" then res ++ freshText (top0.st.rbs[k]?.getD {}) else res
           | _ => res
+        let logs := logs ++ String.join (o1.io.log.map (· ++ " "))
+        let o1 := { o1 with io := { o1.io with log := [] } }
         let m := logs ++ res ++ dumpTop top ++ tail
         let sv := specCheck d st (instRefs top) (xRefs top) op impl
         ({ d with otop := { o1 with top := top }, implDead := d.implDead || implDeadNow }, m, sv)
